@@ -12,6 +12,7 @@ import (
 	"strconv"
 	"strings"
 	"testing"
+	"testing/synctest"
 	"time"
 
 	"github.com/mgtv-tech/redis-GunYu/config"
@@ -44,6 +45,7 @@ const (
 	opResign
 	opLeader
 	nOps
+	opNext = nOps // the next store request of the contender's call in flight
 )
 
 const (
@@ -55,11 +57,13 @@ const (
 )
 
 var (
-	c15OpNames  = []string{"campaign", "renew", "resign", "leader"}
+	c15OpNames  = []string{"campaign", "renew", "resign", "leader", "next"}
 	c15OutNames = []string{"ok", "lost", "failed", "replylost"}
 )
 
-// event encoding: contender*16 + op*4 + outcome; 1000+k = let the clock advance by step k
+// event encoding: contender*32 + op*4 + outcome; 1000+k = let the clock advance by step k.
+// op "next" = the store handles the next request of the contender's call in flight (a call that
+// needs several store requests is interleaved with everything else request by request).
 const evSleep = 1000
 
 var c15StepNames = []string{"sleep.ttl/3", "sleep.ttl", "sleep.ttl-1ms", "sleep.1ms"}
@@ -81,7 +85,7 @@ func c15EventName(e int) string {
 	if e >= evSleep {
 		return c15StepNames[e-evSleep]
 	}
-	return fmt.Sprintf("c%d.%s.%s", e/16+1, c15OpNames[(e%16)/4], c15OutNames[e%4])
+	return fmt.Sprintf("c%d.%s.%s", e/32+1, c15OpNames[(e%32)/4], c15OutNames[e%4])
 }
 
 func c15ParseEvent(s string) (int, error) {
@@ -112,15 +116,15 @@ func c15ParseEvent(s string) (int, error) {
 	if op < 0 || out < 0 {
 		return 0, fmt.Errorf("bad event %q", s)
 	}
-	return (c-1)*16 + op*4 + out, nil
+	return (c-1)*32 + op*4 + out, nil
 }
 
 func c15Alphabet(n int, steps []int) []int {
 	var ev []int
 	for c := 0; c < n; c++ {
-		for op := 0; op < nOps; op++ {
+		for op := 0; op <= opNext; op++ {
 			for out := 0; out < nOuts; out++ {
-				ev = append(ev, c*16+op*4+out)
+				ev = append(ev, c*32+op*4+out)
 			}
 		}
 	}
@@ -148,6 +152,26 @@ type c15Contender struct {
 	// what the instance has been told
 	believes bool  // last campaign/renew answer was "leader" and it has not resigned since
 	lastSucc int64 // ms, time of that answer (-1 never)
+	pend     *c15Pending
+}
+
+// c15Pending is an election call in flight: its next store request is parked at the double.
+type c15Pending struct {
+	op          int
+	t0          int64    // when the call started
+	pre         c15Lease // the lease at that moment
+	nreq        int      // store requests delivered (or lost) so far
+	fates       []int
+	replies     []string
+	interleaved bool // another event happened between two of its requests
+	connDead    bool
+	done        chan c15CallResult
+}
+
+type c15CallResult struct {
+	role cluster.ClusterRole
+	info *cluster.RoleInfo
+	err  error
 }
 
 // lease is the reference model.
@@ -157,13 +181,41 @@ type c15Lease struct {
 }
 
 type c15Out struct {
-	key       string
-	res       *mc.Result
-	machinery string
-	trace     []string
-	executed  int // campaign/renew requests executed by the store
-	faults    int
-	sleeps    int
+	key        string
+	res        *mc.Result
+	machinery  string
+	trace      []string
+	executed   int // campaign/renew requests executed by the store
+	faults     int
+	sleeps     int
+	pend       []bool // contenders with a call in flight in the reached state
+	infeasible bool   // the history asks for an event that is not enabled
+}
+
+// c15StoreCommands are the commands the lease store answers like Redis does; anything else gets a Redis-style
+// error (the double's default "+OK" for unknown commands is meant for opaque business commands, not for a lease
+// store) - the election code then has to cope with it, which is an outcome to judge.
+var c15StoreCommands = map[string]bool{"ping": true, "auth": true, "select": true, "echo": true, "info": true, "client": true, "exists": true, "type": true,
+	"del": true, "unlink": true, "keys": true, "scan": true, "set": true, "setnx": true, "setex": true, "psetex": true, "get": true, "append": true,
+	"incr": true, "decr": true, "incrby": true, "decrby": true, "mset": true, "expire": true, "pexpire": true, "expireat": true, "pexpireat": true,
+	"persist": true, "ttl": true, "pttl": true, "rename": true, "hset": true, "hmset": true, "hsetnx": true, "hget": true, "hmget": true, "hgetall": true,
+	"hlen": true, "hexists": true, "hdel": true, "hincrby": true, "script": true, "eval": true, "multi": true, "exec": true, "discard": true, "command": true}
+
+func c15StrictStore(srv *redisd.Server) {
+	srv.Extra = func(s *redisd.Server, cs *redisd.ConnState, argv [][]byte) []byte {
+		name := strings.ToLower(string(argv[0]))
+		if !c15StoreCommands[name] {
+			return []byte("-ERR unknown command '" + name + "'\r\n")
+		}
+		if name == "set" && len(argv) > 3 {
+			for _, a := range argv[3:] {
+				if strings.EqualFold(string(a), "get") { // SET ... GET is not modelled by the double
+					return []byte("-ERR syntax error\r\n")
+				}
+			}
+		}
+		return nil
+	}
 }
 
 func c15Connect(ctx context.Context, srv *redisd.Server, c *c15Contender, ttl int) error {
@@ -186,6 +238,7 @@ func c15Run(t *testing.T, n, ttl int, events []int) (out c15Out) {
 	msg := bubble(t, func() {
 		vnet.Reset()
 		srv := redisd.New(c15Addr)
+		c15StrictStore(srv)
 		ctx, cancel := context.WithCancel(context.Background())
 		defer cancel()
 		ttlMs := int64(ttl) * 1000
@@ -212,209 +265,363 @@ func c15Run(t *testing.T, n, ttl int, events []int) (out c15Out) {
 			r := mc.Violation(clause, sig, detail)
 			out.res = &r
 		}
-		// storeLease reads the lease as the store holds it now.
-		storeLease := func() (holder string, exp int64, present bool) {
-			v := srv.Get(0, c15Key)
-			if v == nil {
-				return "", 0, false
-			}
-			return string(v.Str), v.ExpireAt, true
-		}
 		idOf := func(i int) string {
 			if i < 0 {
 				return ""
 			}
 			return cs[i].id
 		}
-		for step, e := range events {
-			t0 := now()
-			if e >= evSleep {
-				time.Sleep(c15Step(e-evSleep, ttl))
-				out.sleeps++
-				out.trace = append(out.trace, fmt.Sprintf("%d: t=%dms %s", step, t0, c15EventName(e)))
-			} else {
-				ci, op, oc := e/16, (e%16)/4, e%4
-				c := cs[ci]
-				held := model.holder >= 0 && t0 < model.exp
-				grant := !held || model.holder == ci
-				executed := oc == outOK || oc == outReplyLost
-				answered := oc == outOK
-				// ---- arm the fault
-				plan := srv.PlanRef()
-				next := srv.NumReqs() + 1
-				switch oc {
-				case outLost:
-					if !srv.KillConn(c.conn, true) {
-						out.machinery = "harness: connection to kill not found"
-						return
-					}
-				case outFailed:
-					plan.FailAt = map[int]string{next: "ERR injected failure"}
-				case outReplyLost:
-					plan.AfterReq = func(r *redisd.Req) {
-						if r.Seq == next {
-							srv.KillConnLocked(r.Conn, true)
-						}
-					}
-				}
-				if oc != outOK {
-					out.faults++
-				}
-				// ---- the call
-				var role cluster.ClusterRole
-				var info *cluster.RoleInfo
-				var err error
-				switch op {
-				case opCampaign:
-					role, err = c.el.Campaign(ctx)
-				case opRenew:
-					err = c.el.Renew(ctx)
-				case opResign:
-					err = c.el.Resign(ctx)
-				case opLeader:
-					info, err = c.el.Leader(ctx)
-				}
-				plan.FailAt = nil
-				plan.AfterReq = nil
-				// the double must have seen exactly the expected number of requests
-				wantReqs := next
-				if oc == outLost {
-					wantReqs = next - 1
-				}
-				if got := srv.NumReqs(); got != wantReqs {
-					out.machinery = fmt.Sprintf("harness: %s issued %d target requests, expected %d", c15EventName(e), got-next+1, wantReqs-next+1)
-					return
-				}
-				if len(srv.MachineryErrors) > 0 {
-					out.machinery = "double: " + strings.Join(srv.MachineryErrors, "; ")
-					return
-				}
-				ans := "nil"
-				if err != nil {
-					ans = "error(" + err.Error() + ")"
-				}
-				switch op {
-				case opCampaign:
-					ans = role.String() + "," + ans
-				case opLeader:
-					if info != nil {
-						ans = "address=" + info.Address + "," + ans
-					}
-				}
-				out.trace = append(out.trace, fmt.Sprintf("%d: t=%dms %s -> %s", step, t0, c15EventName(e), ans))
-				if oc == outLost || oc == outReplyLost {
-					if err := c15Connect(ctx, srv, c, ttl); err != nil {
-						out.machinery = "cannot reconnect contender: " + err.Error()
-						return
-					}
-				}
-				// ---- reference model
-				removedOwn := false
-				if executed {
-					switch op {
-					case opCampaign, opRenew:
-						out.executed++
-						if grant {
-							model = c15Lease{holder: ci, exp: t0 + ttlMs}
-						}
-					case opResign:
-						if held && model.holder == ci {
-							model = c15Lease{holder: -1}
-							removedOwn = true
-						}
-					}
-				}
-				_ = removedOwn
-				// ---- what the instance was told
-				told := false
-				switch op {
-				case opCampaign:
-					told = err == nil && role == cluster.RoleLeader
-				case opRenew:
-					told = err == nil
-				}
-				opn := c15OpNames[op]
-				det := func() map[string]interface{} {
-					return map[string]interface{}{"event": c15EventName(e), "answer": ans, "lease_before": map[string]interface{}{"held": held, "holder": idOf(model.holder)},
-						"caller": c.id, "time_ms": t0}
-				}
-				if op == opCampaign || op == opRenew {
-					if !answered && told {
-						viol("a lost or failed "+opn+" was reported to the caller as success", "C15:lost-call-reported-leader:"+opn, det())
-						return
-					}
-					if answered && told && !grant {
-						viol("a "+opn+" succeeded although another instance holds an unexpired lease", "C15:granted-while-held:"+opn, det())
-						return
-					}
-					if answered && !told && grant {
-						viol("a "+opn+" by the holder (or with no unexpired lease) was not answered with leadership", "C15:denied-while-free:"+opn, det())
-						return
-					}
-					if answered && op == opRenew && !grant && !errors.Is(err, cluster.ErrNotLeader) {
-						viol("a failed renewal by a non-holder is not reported as cluster.ErrNotLeader", "C15:renew-nonholder-not-cluster.ErrNotLeader", det())
-						return
-					}
-					if answered && op == opCampaign && !grant && (err != nil || role != cluster.RoleFollower) {
-						viol("a campaign against a held lease did not answer follower", "C15:campaign-held-not-follower", det())
-						return
-					}
-					if told {
-						c.believes, c.lastSucc = true, t0
-					} else {
-						c.believes = false
-					}
-				}
-				if op == opResign {
-					c.believes = false
-				}
-				if op == opLeader && answered && err == nil {
-					if !held || info == nil || info.Address != idOf(model.holder) {
-						viol("the leader query named an instance that does not hold an unexpired lease", "C15:leader-wrong-address", det())
-						return
-					}
+		// storeLease reads the lease as the store holds it now (holder -1: none; -2: a value that is no contender's id).
+		storeLease := func() (l c15Lease, raw string) {
+			v := srv.Get(0, c15Key)
+			if v == nil {
+				return c15Lease{holder: -1}, ""
+			}
+			l = c15Lease{holder: -2, exp: v.ExpireAt}
+			for i, c := range cs {
+				if c.id == string(v.Str) {
+					l.holder = i
 				}
 			}
-			// ---- store against the reference lease
+			return l, string(v.Str)
+		}
+		effective := func(l c15Lease, t int64) c15Lease { // an expired lease is no lease
+			if l.holder == -1 || (l.exp != 0 && t >= l.exp) {
+				return c15Lease{holder: -1}
+			}
+			return l
+		}
+		// judgeStore compares the store with the lease states the reference allows after an event.
+		judgeStore := func(allowed []c15Lease, evn, event string, strictRelease bool) bool {
 			t1 := now()
-			sh, sexp, present := storeLease()
-			mheld := model.holder >= 0 && t1 < model.exp
-			evn := "sleep"
-			if e < evSleep {
-				evn = c15OpNames[(e%16)/4]
+			post, raw := storeLease()
+			for _, a := range allowed {
+				if effective(a, t1) == effective(post, t1) && !(post.holder != -1 && post.exp == 0) {
+					return true
+				}
 			}
-			sd := map[string]interface{}{"event": c15EventName(e), "time_ms": t1, "store": map[string]interface{}{"present": present, "holder": sh, "expire_at_ms": sexp},
-				"reference": map[string]interface{}{"held": mheld, "holder": idOf(model.holder), "expire_at_ms": model.exp}}
+			ref := effective(allowed[0], t1)
+			sd := map[string]interface{}{"event": event, "time_ms": t1, "store": map[string]interface{}{"present": post.holder != -1, "holder": raw, "expire_at_ms": post.exp},
+				"reference": map[string]interface{}{"held": ref.holder >= 0, "holder": idOf(ref.holder), "expire_at_ms": ref.exp}, "allowed_states": len(allowed)}
+			present, mheld := post.holder != -1, ref.holder >= 0
 			switch {
-			case present && sexp == 0:
+			case present && post.exp == 0:
 				viol("the lease key has no expiry: its holder never ceases to be the holder", "C15:lease-without-expiry:"+evn, sd)
-				return
 			case present && !mheld:
-				clause := "the store still holds a lease that must be gone (expired or resigned by its owner)"
-				if evn == "resign" {
+				clause := "the store holds a lease that must not be there (expired, resigned by its owner, or granted by a call that must not grant it)"
+				if evn == "resign" && strictRelease {
 					clause = "resigning did not release the caller's own lease"
 				}
 				viol(clause, "C15:store-lease-should-be-gone:"+evn, sd)
-				return
 			case !present && mheld:
 				clause := "the lease disappeared from the store while its holder's lease period is still running"
 				if evn == "resign" {
 					clause = "a resign released a lease the caller does not hold"
 				}
 				viol(clause, "C15:store-lease-lost:"+evn, sd)
-				return
-			case present && sh != idOf(model.holder):
+			case post.holder != ref.holder:
 				viol("the store's lease changed hands although an unexpired lease was held by another instance", "C15:store-holder-mismatch:"+evn, sd)
-				return
-			case present && sexp != model.exp:
+			default:
 				clause := "the lease expiry differs from one lease period after the holder's last successful campaign/renew"
-				if sexp > model.exp {
+				if post.exp > ref.exp {
 					clause = "the lease outlives one lease period after its holder's last successful campaign/renew (extended by a call that must not extend it)"
 				}
 				viol(clause, "C15:store-expiry-mismatch:"+evn, sd)
-				return
 			}
+			return false
+		}
+		plan := srv.PlanRef()
+		connect := func(c *c15Contender) error { // the connection handshake is not part of any election call
+			plan.Park = false
+			err := c15Connect(ctx, srv, c, ttl)
+			plan.Park = true
+			return err
+		}
+		plan.Park = true // every store REQUEST of an election call is one step of the history
+		defer func() {
+			// calls still in flight at the end of the history: their connection goes away
+			for _, c := range cs {
+				if c.pend != nil {
+					srv.KillConn(c.conn, true)
+				}
+			}
+			plan.Park = false
+			synctest.Wait()
+		}()
+
+		// finish judges a completed call.
+		finish := func(step int, ci int, r c15CallResult) bool {
+			c := cs[ci]
+			p := c.pend
+			c.pend = nil
+			op := p.op
+			opn := c15OpNames[op]
+			ans := "nil"
+			if r.err != nil {
+				ans = "error(" + r.err.Error() + ")"
+			}
+			switch op {
+			case opCampaign:
+				ans = r.role.String() + "," + ans
+			case opLeader:
+				if r.info != nil {
+					ans = "address=" + r.info.Address + "," + ans
+				}
+			}
+			out.trace = append(out.trace, fmt.Sprintf("%d: t=%dms c%d.%s returns %s (after %d store request(s))", step, now(), ci+1, opn, ans, p.nreq))
+			if len(srv.MachineryErrors) > 0 {
+				out.machinery = "double: " + strings.Join(srv.MachineryErrors, "; ")
+				return false
+			}
+			if p.connDead {
+				if err := connect(c); err != nil {
+					out.machinery = "cannot reconnect contender: " + err.Error()
+					return false
+				}
+			}
+			told := false
+			switch op {
+			case opCampaign:
+				told = r.err == nil && r.role == cluster.RoleLeader
+			case opRenew:
+				told = r.err == nil
+			}
+			allOK := true
+			for _, f := range p.fates {
+				if f != outOK {
+					allOK = false
+				}
+			}
+			t0 := p.t0
+			pre := effective(p.pre, t0)
+			held := pre.holder >= 0
+			det := func() map[string]interface{} {
+				return map[string]interface{}{"call": fmt.Sprintf("c%d.%s", ci+1, opn), "answer": ans, "store_requests": p.nreq, "lease_before": map[string]interface{}{"held": held, "holder": idOf(pre.holder)},
+					"caller": c.id, "time_ms": now()}
+			}
+			if p.nreq == 1 || (allOK && !p.interleaved && p.nreq > 0) {
+				// ---- the call was one atomic step of the history: the reference lease decides everything
+				grant := !held || pre.holder == ci
+				executed := allOK || p.fates[0] == outReplyLost
+				answered := allOK
+				want := pre
+				if executed {
+					switch op {
+					case opCampaign, opRenew:
+						out.executed++
+						if grant {
+							want = c15Lease{holder: ci, exp: t0 + ttlMs}
+						}
+					case opResign:
+						if held && pre.holder == ci {
+							want = c15Lease{holder: -1}
+						}
+					}
+				}
+				if op == opCampaign || op == opRenew {
+					switch {
+					case !answered && told:
+						viol("a lost or failed "+opn+" was reported to the caller as success", "C15:lost-call-reported-leader:"+opn, det())
+					case answered && told && !grant:
+						viol("a "+opn+" succeeded although another instance holds an unexpired lease", "C15:granted-while-held:"+opn, det())
+					case answered && !told && grant:
+						viol("a "+opn+" by the holder (or with no unexpired lease) was not answered with leadership", "C15:denied-while-free:"+opn, det())
+					case answered && op == opRenew && !grant && !errors.Is(r.err, cluster.ErrNotLeader):
+						viol("a failed renewal by a non-holder is not reported as cluster.ErrNotLeader", "C15:renew-nonholder-not-cluster.ErrNotLeader", det())
+					case answered && op == opCampaign && !grant && (r.err != nil || r.role != cluster.RoleFollower):
+						viol("a campaign against a held lease did not answer follower", "C15:campaign-held-not-follower", det())
+					}
+					if out.res != nil {
+						return false
+					}
+				}
+				if op == opLeader && answered && r.err == nil && (!held || r.info == nil || r.info.Address != idOf(pre.holder)) {
+					viol("the leader query named an instance that does not hold an unexpired lease", "C15:leader-wrong-address", det())
+					return false
+				}
+				// a call that went through undisturbed must leave exactly the reference lease; after a lost reply it is
+				// unknown whether the implementation had more to do, each of its requests was judged on delivery
+				if allOK && !judgeStore([]c15Lease{want}, opn, fmt.Sprintf("c%d.%s", ci+1, opn), true) {
+					return false
+				}
+			} else {
+				// ---- the call's store requests were interleaved with other events (or some of them failed): every
+				// request was judged when it was delivered; here only what the caller was told
+				if told {
+					post, _ := storeLease()
+					post = effective(post, now())
+					if post.holder != ci {
+						d := det()
+						d["lease_now"] = map[string]interface{}{"held": post.holder >= 0, "holder": idOf(post.holder)}
+						viol("a "+opn+" was answered with leadership although the caller does not hold an unexpired lease at that moment", "C15:told-leader-without-lease:"+opn, d)
+						return false
+					}
+				}
+			}
+			if op == opCampaign || op == opRenew {
+				if told {
+					c.believes, c.lastSucc = true, now()
+				} else {
+					c.believes = false
+				}
+			}
+			if op == opResign {
+				c.believes = false
+			}
+			model, _ = storeLease()
+			return true
+		}
+
+		// deliver lets the store process (or lose) the pending request of contender ci.
+		deliver := func(step int, ci int, oc int, label string) bool {
+			c := cs[ci]
+			p := c.pend
+			t0 := now()
+			if oc != outOK {
+				out.faults++
+			}
+			next := srv.NumReqs() + 1
+			switch oc {
+			case outLost:
+				// the connection dies with the request in flight: the store never sees it
+				if !srv.KillConn(c.conn, true) {
+					out.machinery = "harness: connection to kill not found"
+					return false
+				}
+				p.connDead = true
+			case outFailed:
+				plan.FailAt = map[int]string{next: "ERR injected failure"}
+			case outReplyLost:
+				// the reply is withheld, then the connection dies (the caller runs concurrently: a reply that
+				// was already pushed could be read before the connection is reset)
+				plan.Hold = true
+				p.connDead = true
+			}
+			reqText := "(lost)"
+			if oc != outLost {
+				if srv.Step(c.conn, 1) != 1 {
+					out.machinery = "harness: no parked request to deliver for " + label
+					return false
+				}
+				if oc == outReplyLost {
+					plan.Hold = false
+					srv.KillConn(c.conn, true)
+				}
+				l := srv.Log()
+				last := l[len(l)-1]
+				reqText = last.Name()
+				p.replies = append(p.replies, last.Name()+"="+last.Reply)
+			} else {
+				p.replies = append(p.replies, "lost")
+			}
+			plan.FailAt = nil
+			p.fates = append(p.fates, oc)
+			p.nreq++
+			synctest.Wait()
+			out.trace = append(out.trace, fmt.Sprintf("%d: t=%dms %s  [store request %d of c%d.%s: %s]", step, t0, label, p.nreq, ci+1, c15OpNames[p.op], reqText))
+			// ---- what this ONE request may do to the lease, whatever command it is
+			pre := effective(model, t0)
+			allowed := []c15Lease{pre}
+			if oc == outOK || oc == outReplyLost {
+				switch p.op {
+				case opCampaign, opRenew:
+					if pre.holder == -1 || pre.holder == ci {
+						allowed = append(allowed, c15Lease{holder: ci, exp: t0 + ttlMs})
+					}
+				case opResign:
+					if pre.holder == ci {
+						allowed = append(allowed, c15Lease{holder: -1})
+					}
+				}
+			}
+			if !judgeStore(allowed, c15OpNames[p.op], label, false) {
+				return false
+			}
+			model, _ = storeLease()
+			select {
+			case r := <-p.done:
+				return finish(step, ci, r)
+			default:
+				if srv.PeekParked(c.conn) == nil {
+					out.machinery = "harness: call " + label + " neither returned nor waits for the store"
+					return false
+				}
+			}
+			return true
+		}
+
+		for step, e := range events {
+			t0 := now()
+			if e >= evSleep {
+				time.Sleep(c15Step(e-evSleep, ttl))
+				out.sleeps++
+				out.trace = append(out.trace, fmt.Sprintf("%d: t=%dms %s", step, t0, c15EventName(e)))
+				for _, c := range cs {
+					if c.pend != nil {
+						c.pend.interleaved = true
+					}
+				}
+				if !judgeStore([]c15Lease{model}, "sleep", c15EventName(e), false) {
+					return
+				}
+			} else {
+				ci, op, oc := e/32, (e%32)/4, e%4
+				c := cs[ci]
+				for j, o := range cs {
+					if j != ci && o.pend != nil {
+						o.pend.interleaved = true
+					}
+				}
+				if op == opNext {
+					if c.pend == nil {
+						out.infeasible = true
+						return
+					}
+				} else {
+					if c.pend != nil {
+						out.infeasible = true
+						return
+					}
+					p := &c15Pending{op: op, t0: t0, pre: model, done: make(chan c15CallResult, 1)}
+					c.pend = p
+					el := c.el
+					go func() {
+						var r c15CallResult
+						switch op {
+						case opCampaign:
+							r.role, r.err = el.Campaign(ctx)
+						case opRenew:
+							r.err = el.Renew(ctx)
+						case opResign:
+							r.err = el.Resign(ctx)
+						case opLeader:
+							r.info, r.err = el.Leader(ctx)
+						}
+						p.done <- r
+					}()
+					synctest.Wait()
+					if srv.PeekParked(c.conn) == nil {
+						// the call returned without asking the store anything
+						select {
+						case r := <-p.done:
+							out.trace = append(out.trace, fmt.Sprintf("%d: t=%dms %s (no store request)", step, t0, c15EventName(e)))
+							if !finish(step, ci, r) {
+								return
+							}
+						default:
+							out.machinery = "harness: call " + c15EventName(e) + " neither returned nor waits for the store"
+							return
+						}
+						goto invariant
+					}
+				}
+				if !deliver(step, ci, oc, c15EventName(e)) {
+					return
+				}
+			}
+		invariant:
 			// ---- mutual exclusion among what the instances were told
+			t1 := now()
 			var leaders []string
 			for _, c := range cs {
 				if c.believes && t1 < c.lastSucc+ttlMs {
@@ -422,8 +629,7 @@ func c15Run(t *testing.T, n, ttl int, events []int) (out c15Out) {
 				}
 			}
 			if len(leaders) > 1 {
-				sd["believe_leader"] = leaders
-				viol("two instances were told they are leader and both lease periods are still running", "C15:two-leaders", sd)
+				viol("two instances were told they are leader and both lease periods are still running", "C15:two-leaders", map[string]interface{}{"event": c15EventName(e), "time_ms": t1, "believe_leader": leaders})
 				return
 			}
 		}
@@ -431,25 +637,25 @@ func c15Run(t *testing.T, n, ttl int, events []int) (out c15Out) {
 		t1 := now()
 		cap2 := 2 * ttlMs
 		var sb strings.Builder
-		sh, sexp, present := storeLease()
-		hi := -1
-		for i, c := range cs {
-			if present && c.id == sh {
-				hi = i
+		relOf := func(l c15Lease) (int, int64) {
+			l = effective(l, t1)
+			if l.holder == -1 {
+				return -1, 0
 			}
-		}
-		rel := int64(0)
-		if present {
-			rel = sexp - t1
+			rel := l.exp - t1
 			if rel > cap2 {
 				rel = cap2
 			}
-			if hi < 0 {
-				fmt.Fprintf(&sb, "L?%s", sh)
-			}
+			return l.holder, rel
+		}
+		post, raw := storeLease()
+		hi, rel := relOf(post)
+		if hi == -2 {
+			fmt.Fprintf(&sb, "L?%s", raw)
 		}
 		fmt.Fprintf(&sb, "L%d+%d", hi, rel)
-		for _, c := range cs {
+		out.pend = make([]bool, n)
+		for i, c := range cs {
 			age := cap2
 			if c.lastSucc >= 0 && t1-c.lastSucc < cap2 {
 				age = t1 - c.lastSucc
@@ -459,6 +665,12 @@ func c15Run(t *testing.T, n, ttl int, events []int) (out c15Out) {
 				b = 1
 			}
 			fmt.Fprintf(&sb, "|%d@%d", b, age)
+			if p := c.pend; p != nil {
+				// a call in flight: which one, how far, what it has been told so far, the lease it started from
+				out.pend[i] = true
+				ph, prel := relOf(p.pre)
+				fmt.Fprintf(&sb, "~%s.%d.%v.%v.%x.L%d+%d@%d", c15OpNames[p.op], p.nreq, p.fates, p.interleaved, mc.Hash(p.replies...), ph, prel, t1-p.t0)
+			}
 		}
 		out.key = sb.String()
 	})
@@ -507,6 +719,16 @@ func c15Plans(tier string) []c15Plan {
 // states it discovered in a file of the shared output directory; every shard then
 // reads all files of the level and computes the same next frontier. The files are a
 // barrier only (no oracle depends on wall-clock time).
+
+// c15PendFromKey tells which contenders have a call in flight in a canonical state.
+func c15PendFromKey(key string, n int) []bool {
+	out := make([]bool, n)
+	seg := strings.Split(key, "|")
+	for i := 0; i < n && i+1 < len(seg); i++ {
+		out[i] = strings.Contains(seg[i+1], "~")
+	}
+	return out
+}
 
 type c15Entry struct {
 	Key  string `json:"k"`
@@ -559,7 +781,11 @@ func runC15(t *testing.T, rep *mc.Reporter) {
 			}
 			ev = append(ev, e)
 		}
-		rep.Exec(scn, nil, c15Result(scn.Contenders, scn.TTLs, c15Run(t, scn.Contenders, scn.TTLs, ev), len(ev)))
+		o := c15Run(t, scn.Contenders, scn.TTLs, ev)
+		if o.infeasible && o.machinery == "" {
+			o.machinery = "replay: the history asks for an event that is not enabled on this tree (a call with several store requests exists only on the tree the history was found on)"
+		}
+		rep.Exec(scn, nil, c15Result(scn.Contenders, scn.TTLs, o, len(ev)))
 		return
 	}
 	outdir := os.Getenv("VERIF_OUT")
@@ -596,11 +822,21 @@ func runC15(t *testing.T, rep *mc.Reporter) {
 					lf.Capped = true
 					break
 				}
+				pend := c15PendFromKey(fe.Key, pl.n)
 				for _, e := range alpha {
+					if e < evSleep && ((e%32)/4 == opNext) != pend[e/32] {
+						continue // not enabled: "next" needs a call in flight, a new call needs none
+					}
 					h := append(append([]int(nil), fe.Hist...), e)
 					o := c15Run(t, pl.n, pl.ttl, h)
+					if o.infeasible && o.machinery == "" {
+						o.machinery = "harness: event " + c15EventName(e) + " was expected to be enabled"
+					}
 					res := c15Result(pl.n, pl.ttl, o, len(h))
 					rep.Count("transitions", 1)
+					if e < evSleep && (e%32)/4 == opNext {
+						rep.Count("later_requests_of_a_call", 1)
+					}
 					names := make([]string, len(h))
 					for i, x := range h {
 						names[i] = c15EventName(x)
